@@ -73,7 +73,17 @@ Fixpoint pow_trace (fuel : nat) (lr lb e : N) : trace :=
     if e =? 0 then []
     else Poll :: (if N.odd e then mul_trace lr lb else [])
               ++ mul_trace lb lb
-              ++ pow_trace f (if N.odd e then lr + lb else lr) (2 * lb) (e / 2)
+              ++ pow_trace f (if N.odd e then lr + lb else lr) (2 * lb) (N.div2 e)
+  end.
+
+(* largest operand-length sum over the multiplications of pow_trace *)
+Fixpoint pow_max_len (fuel : nat) (lr lb e : N) : N :=
+  match fuel with
+  | O => 0
+  | S f =>
+    if e =? 0 then 0
+    else N.max (if N.odd e then lr + lb else 0)
+               (N.max (lb + lb) (pow_max_len f (if N.odd e then lr + lb else lr) (2 * lb) (N.div2 e)))
   end.
 
 (* factorial: while self > 1 { test_int; res *= self; self -= 1 }, res has
@@ -133,7 +143,7 @@ Fixpoint pow_polls (fuel : nat) (r b e : N) : N :=
   | S f =>
     if e =? 0 then 0
     else 1 + (if N.odd e then mul_polls r b else 0) + mul_polls b b
-           + pow_polls f (if N.odd e then r * b else r) (b * b) (e / 2)
+           + pow_polls f (if N.odd e then r * b else r) (b * b) (N.div2 e)
   end.
 (* BigUint::pow(a, b) for b > 0 *)
 Definition pow_polls_of (a e : N) : N := pow_polls (S (N.to_nat (N.size e))) 1 a e.
